@@ -121,6 +121,44 @@ def shape_cases(tier, seed0):
                         yield {"sub": "shape", "engine": engine, "space": spname, "state_class": stname, "script": sc}
 
 
+# network shapes beyond the small scope: reaction orders 0..6, coefficients up to 5, 5 species x 6 reactions, up to 5
+# environments (the cell map uses the last one), per-environment constants with and without 'default'
+BIG_NETS = [
+    ("order4", 3, [R([("A", 2), ("B", 2)], [("C", 1)], 1e-3, 0.1)], 2),
+    ("order4-single", 2, [R([("A", 4)], [("B", 1)], 1e-3, 0.05)], 2),
+    ("order5", 3, [R([("A", 3), ("B", 2)], [("C", 2)], 1e-4, 0.02)], 2),
+    ("order6-reverse", 3, [R([("A", 1)], [("B", 3), ("C", 3)], 0.5, 1e-5)], 2),
+    ("coefficient5", 2, [R([("A", 1)], [("B", 5)], 0.3), R([("B", 5)], [], 1e-5)], 2),
+    ("5species-6reactions", 5, [R([("A", 1)], [("B", 1)], 0.5, 0.1), R([("B", 1), ("C", 1)], [("D", 1)], 0.05, 0.2),
+                                R([("D", 2)], [("E", 1)], 0.02), R([], [("C", 1)], 0.7), R([("E", 1)], [], 0.3),
+                                R([("A", 1), ("E", 1)], [("A", 1), ("C", 2)], 0.04)], 2),
+    ("5environments", 2, [R([("A", 1)], [("B", 1)], {"e4": 0.9, "e2": 0.1}, {"default": 0.2, "e0": 0.0})], 5),
+    ("3environments-order3", 3, [R([("A", 2), ("B", 1)], [("C", 1)], {"default": 0.01, "e2": 0.0}, 0.3)], 3),
+]
+
+
+def bignet_cases(tier, seed0):
+    sps = [("grid2x1x1", lambda ne: {"type": "grid", "w": 2, "h": 1, "d": 1, "bc": {}, "env": [0, ne - 1], "vol": 1.5}),
+           ("grid3x2x2:p", lambda ne: {"type": "grid", "w": 3, "h": 2, "d": 2, "bc": {"x": "periodical", "y": "reflecting", "z": "periodical"},
+                                       "env": [(5 * i + 1) % ne for i in range(12)], "vol": 0.5}),
+           ("graph-chain3", lambda ne: {"type": "graph", "nodes": [{"vol": [1.0, 8.0, 0.5][i], "env": (ne - 1 - i) % ne} for i in range(3)],
+                                        "edges": [[0, 1, 1.5, 0.75], [2, 1, 0.5, 2.0]]})]
+    k = 0
+    for engine in ("euler", "tauleap", "gillespie"):
+        for name, ns, rx, ne in BIG_NETS:
+            for spname, mk in sps:
+                for stname in ("small-int", "fractions") + (("above-100",) if tier == "thorough" else ()):
+                    k += 1
+                    space = mk(ne)
+                    n = len(space["nodes"]) if space["type"] == "graph" else space["w"] * space["h"] * space["d"]
+                    spec = {"species": [{"label": "ABCDE"[s], "D": [0.5, {"default": 0.25, "e0": 0.0}, 0.3, 0.0, 0.1][s]} for s in range(ns)],
+                            "reactions": rx, "envs": ["e%d" % i for i in range(ne)], "space": space, "state": state_for(stname, ns, n)}
+                    pol, samp = SAMPLING[k % len(SAMPLING)]
+                    sc = {"system": spec, "time_step": 0.0625, "policy": pol, "seed": 1000 * seed0 + k % 3, "isp": "auto"}
+                    sc.update(samp)
+                    yield {"sub": "shape", "engine": engine, "space": spname + ":" + name, "state_class": stname, "script": sc}
+
+
 def pinned_cases():
     """Inputs of recorded known findings are kept in the catalogue explicitly so that the finding stays visible."""
     spec = {"species": [{"label": "A", "D": 0.5}, {"label": "B", "D": 0.0}],
@@ -242,7 +280,7 @@ def run(ctx):
     eng.so_path("san")
     eng.so_path("plain")
     hjobs, subs = c10.build_jobs(ctx.tier, ctx.seed, d1=4 if ctx.tier == "quick" else 6, d2=3 if ctx.tier == "quick" else 5)
-    sc = list(shape_cases(ctx.tier, ctx.seed)) + list(pinned_cases())
+    sc = list(shape_cases(ctx.tier, ctx.seed)) + list(bignet_cases(ctx.tier, ctx.seed)) + list(pinned_cases())
     _JOBS = [("shape", c) for c in sc] + hjobs
     ctx.sample(sc[len(sc) // 2])
     for j in hjobs[40:42] + hjobs[-1:]:
@@ -279,7 +317,8 @@ def run(ctx):
         core.merge(ctx, r)
         done += job[1] - job[0]
     ctx.subspace("script-shape catalogue on the sanitized build (3 engines x %d spaces x 7 sampling entries x 4 processing modes x "
-                 "5 state classes, diagonal sub-lattice%s) each compared with the plain build"
+                 "5 state classes, diagonal sub-lattice%s; + 3 engines x 8 larger network shapes (orders 4-6, coefficient 5, 5 species x 6 "
+                 "reactions, 3 and 5 environments) x 3 spaces x state classes) each compared with the plain build"
                  % (len(spaces(ctx.tier)), " 1/5" if ctx.tier == "quick" else " 1/2"), len(sc), len(sc) if done == len(_JOBS) else 0,
                  exhaustive=(done == len(_JOBS)))
     ctx.add(states=0)
